@@ -23,7 +23,7 @@ class C10(Property):
         fws = []
         for n in range(0, 3 if tier == "quick" else 4):
             fws += list(gen.all_digraphs(n))
-        for _ in range(450 if tier == "quick" else 9000):
+        for _ in range(330 if tier == "quick" else 9000):
             fws.append(gen.random_framework(rng, 7))
         for (a, b) in [(4, 2), (5, 2), (6, 2), (2, 4), (3, 3), (1, 31), (1, 32), (1, 33), (2, 6), (3, 4)]:
             fws.append(gen.funnel(a, b))
